@@ -6,12 +6,13 @@ Scen_all   == {"A2", "S2", "B3", "D3"}
 Scen_small == {"A2", "S2", "B3"}
 ActsAll == {"Translate", "Scale", "MeshRotate90", "FieldRotate90", "MkField",
             "Neg", "Pos", "Abs", "Add", "Mul", "MulNum", "Comp", "LShift", "Diff",
+            "Sub", "Dot", "Cross", "Norm", "Orientation", "Integrate", "FromField", "SetSub",
             "SetValidArray", "SetValidNorm", "SetValidNone", "MutateValid", "UpdateConst", "SetArray",
             "SelPlane", "SelRange", "GetSub", "GetRegion", "Pad", "Resample",
             "H5", "Ovf", "Vtk", "Xarray"}
 Scen_A2 == {"A2"}
 (* depth 3: the calls that create sharing (algebra, field[name], resample), in-place steps, and the calls that read through it *)
-Acts_d3 == {"Neg", "Add", "GetSub", "Resample", "SelRange", "Pad", "FieldRotate90", "Translate", "MutateValid", "SetValidNorm", "UpdateConst", "H5", "Diff"}
+Acts_d3 == {"Norm", "FromField", "SetSub", "Neg", "Add", "GetSub", "Resample", "SelRange", "Pad", "FieldRotate90", "Translate", "MutateValid", "SetValidNorm", "UpdateConst", "H5", "Diff"}
 Acts_alias == {"Neg", "GetSub", "Resample", "Translate", "FieldRotate90", "MeshRotate90"}
 TransVs_def == {<<R(4), H(-3, 2), R(1)>>}
 ScaleFs_q   == {<<R(2), R(2), R(2)>>}
